@@ -132,4 +132,46 @@ theorem waitCall_last {α : Type} (maxWait : Int) (env : List (Option α × Bool
               | zero => rfl
               | succ k => simp only [List.getElem?_cons_succ]; exact h3 k (by omega)
 
+/-! ### the small-step form the driver executes is the big-step `waitCall` -/
+
+theorem timedLoop_eq_iter {α : Type} (maxWait : Int) (h0 : ¬ maxWait < 0) (k : Nat)
+    (ticks : List (Option α × Bool)) : timedLoop ticks = waitIter maxWait (k + 1) ticks := by
+  induction ticks generalizing k with
+  | nil => rfl
+  | cons t rest ih =>
+    obtain ⟨o, b⟩ := t
+    cases o with
+    | some v => simp [timedLoop, waitIter, waitDecide]
+    | none =>
+      cases b with
+      | true => simp [timedLoop, waitIter, waitDecide, h0]
+      | false => simp [timedLoop, waitIter, waitDecide, h0, ih (k + 1)]
+
+theorem spinLoop_eq_iter {α : Type} (maxWait : Int) (h0 : maxWait < 0) (k : Nat)
+    (env : List (Option α × Bool)) : spinLoop (env.map (·.1)) = waitIter maxWait k env := by
+  induction env generalizing k with
+  | nil => rfl
+  | cons t rest ih =>
+    obtain ⟨o, b⟩ := t
+    cases o with
+    | some v => simp [spinLoop, waitIter, waitDecide]
+    | none => simp [spinLoop, waitIter, waitDecide, h0, ih (k + 1)]
+
+theorem waitCall_eq_iter {α : Type} (maxWait : Int) (env : List (Option α × Bool)) :
+    waitCall maxWait env = waitIter maxWait 0 env := by
+  unfold waitCall
+  split
+  · rename_i h0; exact spinLoop_eq_iter maxWait h0 0 env
+  · rename_i h0
+    cases env with
+    | nil => rfl
+    | cons t ticks =>
+      obtain ⟨o, b⟩ := t
+      cases o with
+      | some v => simp [waitIter, waitDecide]
+      | none =>
+        by_cases hz : maxWait = 0
+        · simp [waitIter, waitDecide, h0, hz]
+        · simp [waitIter, waitDecide, h0, hz, timedLoop_eq_iter maxWait h0 0 ticks]
+
 end Golib.C01
